@@ -266,32 +266,43 @@ fn gen_statements(fields: &Fields, encoding: Encoding) -> syn::Result<proc_macro
             .and_then(CustomCodec::to_decode_path)
             .unwrap_or_else(|| default_decode_fn.clone());
 
+        // An unknown variant may have been consumed partially or completely
+        // when the error is detected, hence we go back to the start of the
+        // field value and skip over it as a whole.
+        let skip_value = quote! {{
+            __d777.set_position(__q777);
+            __d777.skip()?
+        }};
+
         let unknown_var_err =
             if let Some(cd) = field.attrs.codec() {
                 if let Some(p) = cd.to_nil_path() {
                     quote! {
-                        Err(e) if e.is_unknown_variant() && #p().is_some() => {
-                            __d777.skip()?
-                        }
+                        Err(e) if e.is_unknown_variant() && #p().is_some() => #skip_value
                     }
                 } else if is_option(&field.typ, |_| true) {
                     quote! {
-                        Err(e) if e.is_unknown_variant() => __d777.skip()?,
+                        Err(e) if e.is_unknown_variant() => #skip_value
                     }
                 } else {
                     quote!()
                 }
             } else if is_option(&field.typ, |_| true) {
                 quote! {
-                    Err(e) if e.is_unknown_variant() => __d777.skip()?,
+                    Err(e) if e.is_unknown_variant() => #skip_value
                 }
             } else {
                 let ty = &field.typ;
                 quote! {
-                    Err(e) if e.is_unknown_variant() && <#ty as minicbor::Decode::<Ctx>>::nil().is_some() => {
-                        __d777.skip()?
-                    }
+                    Err(e) if e.is_unknown_variant() && <#ty as minicbor::Decode::<Ctx>>::nil().is_some() => #skip_value
                 }
+            };
+
+        let value_start =
+            if unknown_var_err.is_empty() {
+                quote!()
+            } else {
+                quote!(let __q777 = __d777.position();)
             };
 
             let value =
@@ -312,6 +323,7 @@ fn gen_statements(fields: &Fields, encoding: Encoding) -> syn::Result<proc_macro
             let name = &field.ident;
 
             quote! {{
+                #value_start
                 #tag
                 match #decode_fn(__d777, __ctx777) {
                     Ok(__v777) => #name = #value,
